@@ -98,6 +98,16 @@ def predicate(rep):
     ok = len(cs) == 1 and [norm(a) for a in cs[0].args[:2]] == gi.params[:2] and norm(kwarg(cs[0], "node_match") or ast.Constant(None)) == "node_match" \
         and norm(kwarg(cs[0], "edge_match") or ast.Constant(None)) == "edge_match"
     rep.ob("O13.1", "R13", gi, ok, cs[0] if cs else "nx.is_isomorphic", "graph_isomorphism is nx.is_isomorphic with the given predicates")
+    for r in returns_of(gi.node):
+        if cs and r.value is cs[0]:
+            continue
+        if is_const(r.value, True) or not is_const(r.value, False):
+            gtxt = [norm(t) for t, s_ in guards_of(parent_map(gi.node), r, gi.node, early=True)]
+            rep.ob("O13.1", "R13", gi, False, f"return {norm(r.value) if r.value is not None else None} under {gtxt}",
+                   "a positive verdict comes only from nx.is_isomorphic with the node AND bond predicates: a shortcut (e.g. `g1.nodes == g2.nodes and g1.edges == g2.edges`, "
+                   "where EdgeView equality ignores edge data) declares graphs with different bond orders isomorphic", node=r)
+        else:
+            rep.ob("O13.1", "R13", gi, None, r, "early rejection in graph_isomorphism: necessity not established", node=r)
     ft = rep.f(GC, "GraphCluster.fit")
     ic = [c for c in walk_local(ft.node) if isinstance(c, ast.Call) and call_name(c) == "iterative_cluster"]
     ok = bool(ic) and len(ic[0].args) == 4 and [norm(a) for a in ic[0].args[2:]] == ["self.nodeMatch", "self.edgeMatch"]
